@@ -22,6 +22,8 @@ func main() {
 		runC03()
 	case "C18":
 		runC18()
+	case "C01API":
+		runC01API()
 	default:
 		fmt.Fprintln(os.Stderr, "unknown property", os.Args[1])
 		os.Exit(64)
